@@ -154,7 +154,7 @@ def st_spec(name, D, N, *, orders=(1, 2, 3, 4), dt=None, L=None, contour=False, 
         if contour:
             extra["_contour"] = st.sampled_from(CONTOURS)
         if frac_choice and "dealiasing_fraction" not in fixed:
-            extra["dealiasing_fraction"] = st.sampled_from([2 / 3, 2 / 3, 0.5])
+            extra["dealiasing_fraction"] = st.sampled_from([2 / 3, 2 / 3, 0.5] if frac_choice is True else list(frac_choice))
     s = st.fixed_dictionaries(
         dict(
             kw=st.fixed_dictionaries({**d, **extra}),
